@@ -499,6 +499,15 @@ func checkClonePayloadSwitch(c *Ctx, r *R) {
 	for _, name := range sortedKeys(payloads) {
 		t := payloads[name]
 		key := "payload:" + name
+		// a pointer payload whose fields are written after construction is shared mutable state between copies, whatever
+		// it points to: it needs a case of its own (a fresh wrapper)
+		if site := mutatedAfterConstruction(c, t); site != "" {
+			r.check(has[name], "mutable-"+key, c.Pos(sw.stmt.Pos()), "pointer payload with fields written after construction (at "+site+") has a case in the clone payload switch",
+				fmt.Sprintf("object payload type %s is a pointer to a struct whose fields are written after construction (%s) and it has no case in the clone function's payload switch: every copy shares the one wrapper, so `s.push(4)` on one copy of a bridged Go slice changes `s.length` in the template and in the other copies, and concurrent copies race on it", name, site))
+			if has[name] {
+				continue
+			}
+		}
 		if !ownsRuntimeData(t) {
 			r.ok(key, "-", "payload holds no reference into the JavaScript heap: sharing it is harmless")
 			continue
@@ -511,12 +520,51 @@ func checkClonePayloadSwitch(c *Ctx, r *R) {
 	}
 }
 
+// mutatedAfterConstruction: t is *T and some function stores to a field of a T it did not allocate itself. Returns the
+// site of one such store.
+func mutatedAfterConstruction(c *Ctx, t types.Type) string {
+	pt, ok := t.Underlying().(*types.Pointer)
+	if !ok {
+		return ""
+	}
+	nt, ok := pt.Elem().(*types.Named)
+	if !ok {
+		return ""
+	}
+	if _, ok := nt.Underlying().(*types.Struct); !ok {
+		return ""
+	}
+	for _, fn := range c.AllSrcFuncs("") {
+		for _, b := range fn.Blocks {
+			for _, ins := range b.Instrs {
+				st, ok := ins.(*ssa.Store)
+				if !ok {
+					continue
+				}
+				fa, ok := st.Addr.(*ssa.FieldAddr)
+				if !ok {
+					continue
+				}
+				n2, _ := fieldOfAddr(fa)
+				if n2 == nil || n2.Obj() != nt.Obj() {
+					continue
+				}
+				if _, fresh := fa.X.(*ssa.Alloc); fresh {
+					continue // a literal under construction
+				}
+				return c.Pos(instrPos(st))
+			}
+		}
+	}
+	return ""
+}
+
 var clonePayloadExempt = map[string]string{
 	"Value":           "payload of Boolean/Number wrapper objects: always a primitive (stored by newPrimitiveObject from ToNumber/ToBoolean results), never an object",
 	"*goStructObject": "bridged host value (outside the pure-JavaScript heap the property quantifies over)",
 	"*goMapObject":    "bridged host value",
 	"*goArrayObject":  "bridged host value",
-	"*goSliceObject":  "bridged host value",
+	"*goSliceObject":  "bridged host value (the wrapper itself is mutable and is checked by the mutable-payload obligation)",
 	"goMapObject":     "bridged host value",
 	"goStructObject":  "bridged host value",
 	"ottoError":       "error payload: name, message and a captured trace of frames (strings and positions); the frames' fn back-pointers are used for display only",
